@@ -123,8 +123,11 @@ FN = {
 }
 
 # ---- binding B2: which Sched_<name>.cfg provides the simulated behaviours replayed into the real code
-SCHED = {p: "canary" for p in ("C01", "C02", "C03", "C04", "C05", "C07", "C08", "C09", "C12", "C13", "C14", "C15")}
-SCHED.update({"C18": "settings", "C10": "settings"})   # behaviours of SettingsSys.tla (settings controller + replica-set sync)
+SCHED = {p: ["canary"] for p in ("C01", "C02", "C03", "C04", "C05", "C07", "C08", "C09", "C12", "C13", "C14", "C15")}
+SCHED.update({"C18": ["settings"], "C10": ["settings"]})   # behaviours of SettingsSys.tla (settings controller + replica-set sync)
+# behaviours of Multi.tla (two ExtendedDaemonSets sharing the nodes; same name in two namespaces / two names in one namespace)
+for _p in ("C12", "C13", "C14", "C01"):
+    SCHED[_p] = SCHED[_p] + ["multi"]
 
 # ---- fault enumeration: scenarios per tier; formulas judged on the faulted runs ----
 FAULTS = {
